@@ -48,6 +48,9 @@ func (a *VSA) tuples() []tuple {
 // Run returns, per block, the indices (into Tuples()) of the tuples that may reach it.
 func (a *VSA) Run() (map[*ssa.BasicBlock]map[int]bool, []tuple) {
 	fn := a.B.Fn
+	for i := range a.Tracked {
+		a.Tracked[i] = Expand(a.Tracked[i])
+	}
 	tuples := a.tuples()
 	sets := map[*ssa.BasicBlock]map[int]bool{}
 	for _, blk := range fn.Blocks {
